@@ -363,18 +363,21 @@ CLAIMED["C08"] = dict(
 
 CLAIMED["C09"] = dict(
     engine="tok", design_ref="6.9",
-    technique="Lean 4 proof of the counting primitives (only the reader counts; CR, LF, CRLF once; look-ahead and "
-              "before-attribute-value never drop a break) + C03 for chunking; prefix oracle on the real code; correspondence on "
-              "every line number",
-    text="Proved for the tokenizer model: no transition and no raw discard changes current_line; input preprocessing bumps it "
-         "exactly when it delivers LF, i.e. once per CR, LF or CRLF, also when CR and LF are split across chunks; the look-ahead "
-         "prologue only skips the LF of an already counted CRLF; before-attribute-value consumes breaks through get_char. "
-         "Chunk independence of all line numbers is part of C03_chunk_independence. PARTIAL: the end-to-end invariant "
-         "line = 1 + breaks(consumed prefix) is decided on the real code: EOF line of every run, and for every token of every "
-         "short cover input the line is checked against the prefix consumed when it appears (one-character feeding without end()).",
+    technique="Lean 4 proof of an end-to-end counting invariant of the tokenizer model (potential: current_line + line breaks "
+              "still ahead in stash ++ queue is conserved by every step, all six reading disciplines, character references and "
+              "look-ahead included) + C03 for chunking; prefix and EOF-line oracles on the real code; correspondence on every "
+              "line number",
+    text="Proved for the tokenizer model, for all options, sink policies, start states, inputs and chunkings: every "
+         "Tokenizer::step conserves current_line + (number of line breaks - CR, LF, CRLF once - in the logically unread "
+         "text: what eat()/a character reference in progress hold back, then the queue), under an invariant that a fresh "
+         "tokenizer satisfies and every step preserves; hence at every suspension current_line = 1 + breaks of all text fed "
+         "so far, under any chunking (C09_line_after_input), and at every step line + breaks ahead = 1 + breaks of the "
+         "whole text (C09_line_at_any_step); tokens are stamped with current_line and no transition changes it. The table "
+         "fact 'no entity name contains a line break' is kernel-checked over the regenerated table. PARTIAL: not restated "
+         "across Tokenizer::end (EOF transitions never touch the line); decided there by the EOF-line oracle on the real "
+         "code, which also checks every token of every cover input against the prefix consumed when it appears.",
     note="Trusted: Lean kernel; tokenizer model + tok correspondence (compares every line number); the prefix oracle allows the "
          "one-character window in which a look-ahead may or may not have consumed the current character.")
-
 CLAIMED["C01"] = dict(
     engine="tok", design_ref="6.1",
     technique="independent executable specification of HTML Standard 13.2.5 in Lean 4 (all 80 states, transcribed state by "
